@@ -221,7 +221,8 @@ def load(f, **options):  # type: (typing.IO, **typing.Any) -> canmatrix.CanMatri
                 else:
                     extended = None
                 if len(temp_array) > 6:
-                    transmitters = temp_array[6].split()
+                    # "Vector__XXX" is dump's placeholder for a frame without sender
+                    transmitters = [t for t in temp_array[6].split() if t != "Vector__XXX"]
                 else:
                     transmitters = list()
                 new_frame = db.add_frame(
